@@ -80,7 +80,9 @@ def run(run):
     run.pmap("bk.init_score_check", bk.init_score_check, kinit)
     run.pmap("bk.step_check", bk.step_check, kstep)
     items = sweep.make_items(run, cfgs, ["reported"], light=light, heavy=heavy)
-    run.pmap("sweep.run_item", sweep.run_item, items, chunksize=2)
+    items += sweep.history_items(run, [c for c in cfgs if c not in sweep.HEAVY or run.thorough], ["reported"], 4 if run.thorough else 2)
+    run.pmap("sweep.run_item", sweep.run_item, sweep.order_items(items), chunksize=1)
+    run.part("validate_engine_f", lambda: sweep.validate_engine_f(run, 40 if run.thorough else 14))
     run.extra["work_items"] = len(items)
     run.extra["stubs"] = sweep.install()
 
